@@ -4,7 +4,7 @@
    TcpChannelTask::run reports before anything else (`init_outputs`).  `Lifecycle.legal` is the
    Spec automaton written from the property text.  `es` ranges over ALL event lists. *)
 From Coq Require Import NArith List.
-From Rodbus Require Import Model.Retry Spec.Lifecycle Spec.ClientSpec Gen.SessionErrors Model.ClientTask Proofs.ClientBase Proofs.C13Proofs.
+From Rodbus Require Import Model.Retry Spec.Lifecycle Spec.ClientSpec Gen.SessionErrors Model.ClientTask Proofs.ClientBase Proofs.C13Proofs Proofs.C13Live.
 Import ListNotations.
 Local Open Scope N_scope.
 
@@ -59,6 +59,21 @@ Theorem C13_in_flight_ends : forall cfg s r tx d, ph s = PInFlight r tx d -> fir
   let s2 := fst (step cfg s EvTimer) in listens (ph s2) = true \/ ph s2 = PDone.
 Proof. exact c13_in_flight_ends. Qed.
 Print Assumptions C13_in_flight_ends.
+
+(* liveness, from EVERY state (whatever the phase, whatever is queued in front): once a Shutdown
+   command is in the queue, or once every handle is gone, the task's own steps (recv, its timers,
+   the clock) lead to termination; `internal` admits only EvRecv / EvTimer / EvTick *)
+Theorem C13_shutdown_from_every_state : forall cfg s,
+  (queue s = [] -> blocked s = []) -> In CShutdown (queue s ++ blocked s) -> ph s <> PDone ->
+  exists es, forallb internal es = true /\ ph (fst (run cfg s es)) = PDone.
+Proof. exact shutdown_from_every_state. Qed.
+Print Assumptions C13_shutdown_from_every_state.
+
+Theorem C13_drop_all_handles_from_every_state : forall cfg s,
+  handles s = 0%nat -> blocked s = [] -> ph s <> PDone ->
+  exists es, forallb internal es = true /\ ph (fst (run cfg s es)) = PDone.
+Proof. exact drop_from_every_state. Qed.
+Print Assumptions C13_drop_all_handles_from_every_state.
 
 (* a disable closes an open connection and is reported as Disabled; while a request is in flight it
    waits in the queue until that transaction is over *)
